@@ -454,6 +454,12 @@ func (env *Env) tr0(e ast.Expr) Term {
 		if s, ok := g.specs.consts[e.Name]; ok {
 			return Term{e.Name, s, sortType(s)}
 		}
+		// callarg0, callarg1, ...: inside a callsite clause, the operands of the call the clause is checked at
+		if strings.HasPrefix(e.Name, "callarg") && g.callArgs != nil {
+			if k, err := strconv.Atoi(e.Name[7:]); err == nil && k < len(g.callArgs) && g.callArgs[k].loc == nil {
+				return g.callArgs[k].t
+			}
+		}
 		// package-level constant or variable
 		if env.pkg != nil {
 			if o := env.pkg.Scope().Lookup(e.Name); o != nil {
